@@ -6,7 +6,6 @@ package main
 import (
 	"fmt"
 	"go/ast"
-	"go/importer"
 	"go/parser"
 	"go/token"
 	"go/types"
@@ -18,6 +17,8 @@ import (
 	"strconv"
 	"strings"
 	"sync"
+
+	"github.com/goplus/gogen/packages"
 )
 
 type goChecker struct {
@@ -28,7 +29,9 @@ type goChecker struct {
 
 func newGoChecker() *goChecker {
 	fset := token.NewFileSet()
-	return &goChecker{fset: fset, imp: importer.ForCompiler(fset, "source", nil)}
+	// export data via `go list -export` in the working directory (a module that resolves XGo's
+	// dependencies): one `go list` per imported package, cached
+	return &goChecker{fset: fset, imp: packages.NewImporter(fset)}
 }
 
 // goVerdict of the reference front end on one Go file.
